@@ -385,6 +385,18 @@ func historiesN(e *env, filters, rnames []string, depthAll, depthBFS, nsubs int)
 	run := func(hist []int) (string, string, int) {
 		mt := topics.NewMemProvider()
 		mod := hmodel{subs: map[string]byte{}, retained: map[string]string{}, pret: map[string][2]string{}}
+		// an operation on a topic with an empty level anywhere in the history can leave
+		// traces of the pinned behaviour (aliasing of "a/" and "a") after the entry itself
+		// is gone from the model
+		// psubs mirrors the subscription tree under the pinned empty-level behaviour
+		// ("a/" and "a" are one node), as pret does for the retained tree
+		psubs := map[string]byte{}
+		emptyInHistory := false
+		for _, h := range hist {
+			if hasEmptyLevel(ops[h].filter) {
+				emptyInHistory = true
+			}
+		}
 		for i, h := range hist {
 			o := ops[h]
 			switch o.kind {
@@ -393,6 +405,7 @@ func historiesN(e *env, filters, rnames []string, depthAll, depthBFS, nsubs int)
 					return fmt.Sprintf("step %d %s fails: %v", i+1, o, err), "", i + 1
 				}
 				mod.subs[fmt.Sprintf("%d|%s", o.sub, o.filter)] = o.qos
+				psubs[fmt.Sprintf("%d|%s", o.sub, pinned(o.filter))] = o.qos
 			case 'U':
 				k := fmt.Sprintf("%d|%s", o.sub, o.filter)
 				err := mt.Unsubscribe([]byte(o.filter), subsObj[o.sub])
@@ -400,6 +413,7 @@ func historiesN(e *env, filters, rnames []string, depthAll, depthBFS, nsubs int)
 					return fmt.Sprintf("step %d %s of a held subscription fails: %v", i+1, o, err), "", i + 1
 				}
 				delete(mod.subs, k)
+				delete(psubs, fmt.Sprintf("%d|%s", o.sub, pinned(o.filter)))
 			case 'R':
 				err := mt.Retain(retainMsg(o.filter, o.payload))
 				if o.payload == "" {
@@ -431,10 +445,9 @@ func historiesN(e *env, filters, rnames []string, depthAll, depthBFS, nsubs int)
 				}
 				if !sameSet(got, want) {
 					w2 := map[string]int{}
-					anyEmpty := hasEmptyLevel(n)
-					for k, q := range mod.subs {
+					anyEmpty := hasEmptyLevel(n) || emptyInHistory
+					for k, q := range psubs {
 						sp := strings.SplitN(k, "|", 2)
-						anyEmpty = anyEmpty || hasEmptyLevel(sp[1])
 						if pinnedMatches(sp[1], n) {
 							idx := int(sp[0][0] - '0')
 							w2[fmt.Sprintf("%s@%d", subsObj[idx].name, minq(pq, q))]++
@@ -461,7 +474,7 @@ func historiesN(e *env, filters, rnames []string, depthAll, depthBFS, nsubs int)
 			}
 			if !sameSet(got, want) {
 				w2 := map[string]int{}
-				anyEmpty := hasEmptyLevel(f)
+				anyEmpty := hasEmptyLevel(f) || emptyInHistory
 				for k, tp := range mod.pret {
 					anyEmpty = anyEmpty || hasEmptyLevel(tp[0])
 					if refmatch.Matches(pinned(f), k) {
